@@ -197,6 +197,21 @@ class Desugar(ast.NodeTransformer):
                 if isinstance(s, ast.Return):
                     return self._block([ast.copy_location(ast.If(test=test, body=[a], orelse=[]), s), b])
                 return self._block([ast.copy_location(ast.If(test=test, body=[a], orelse=[b]), s)])
+        # a loop over a short literal sequence of call-free expressions is unrolled
+        if isinstance(s, ast.For) and not s.orelse and isinstance(s.iter, (ast.Tuple, ast.List)) and 1 <= len(s.iter.elts) <= 8 and isinstance(s.target, ast.Name) \
+                and not any(isinstance(x, (ast.Break, ast.Continue, ast.Return, ast.Yield, ast.YieldFrom)) for b in s.body for x in ast.walk(b)) \
+                and not any(isinstance(e, ast.Starred) or any(isinstance(x, (ast.Call, ast.Await, ast.NamedExpr)) for x in ast.walk(e)) for e in s.iter.elts):
+            v = s.target.id
+            stored = {x.id for b in s.body for x in ast.walk(b) if isinstance(x, ast.Name) and isinstance(x.ctx, (ast.Store, ast.Del))}
+            elt_names = {x.id for e in s.iter.elts for x in ast.walk(e) if isinstance(x, ast.Name)}
+            used_after = self.outside.get(v, 0) > sum(1 for b in [s] for x in ast.walk(b) if isinstance(x, ast.Name) and x.id == v)
+            if v not in stored and not (stored & elt_names) and not used_after:
+                import copy
+                out = []
+                for e in s.iter.elts:
+                    for b in s.body:
+                        out.append(_SubstName(v, e).visit(copy.deepcopy(b)))
+                return self._block(out)
         # `xs.extend(E for v in it)` -> `for v in it: xs.append(E)`
         if isinstance(s, ast.Expr) and isinstance(s.value, ast.Call) and isinstance(s.value.func, ast.Attribute) and s.value.func.attr == "extend" \
                 and isinstance(s.value.func.value, ast.Name) and len(s.value.args) == 1 and not s.value.keywords \
@@ -311,6 +326,17 @@ class Desugar(ast.NodeTransformer):
             for h in node.handlers:
                 h.body = self._block(h.body)
         return node
+
+
+class _SubstName(ast.NodeTransformer):
+    def __init__(self, name, expr):
+        self.name, self.expr = name, expr
+
+    def visit_Name(self, n):
+        if n.id == self.name and isinstance(n.ctx, ast.Load):
+            import copy
+            return ast.copy_location(copy.deepcopy(self.expr), n)
+        return n
 
 
 def _first_ifexp(val):
